@@ -24,7 +24,7 @@ import (
 // strict handshake for that distribution point is denied unless an earlier authentic version is in
 // force. For an authentic document nothing is demanded here (that is C15/C16).
 
-var c04signers = []string{"issuer", "trusted", "sibling", "stranger", "ee-key", "ca-no-crlsign"}
+var c04signers = []string{"issuer", "trusted", "sibling", "stranger", "ee-key", "ca-no-crlsign", "replayed-signature"}
 var c04akis = []int{akiDefault, akiAbsent, akiIssuerSer, akiBoth, akiForeignKey}
 var c04paths = []string{"first-load", "provision-url", "refresh"}
 var c04algs = []SigAlg{ECDSASHA256, ECDSASHA1, ECDSASHA224, ECDSASHA384, ECDSASHA512, RSASHA256, RSASHA1, RSASHA224, RSASHA384, RSASHA512, RSAPSSSHA256, ED25519, MD5RSA}
@@ -41,7 +41,7 @@ func init() {
 		if tier == "thorough" {
 			n = e + c04bitsUpper + 3000 // RSA sweep + sampled refresh-path flips and larger documents
 		}
-		return Plan{Runs: n, Enumerated: e, Exhaustive: true, Level: "fault_enumeration", Rule: "enumerated: (signer in {issuer, configured trusted signer, sibling CA with the same name, stranger, the client certificate's own key, CA without cRLSign} x AKI form in {keyId, absent, issuer+serial, both, foreign keyId} x intake path in {first CDP load, crl_urls at provision, periodic refresh}) + (13 signature algorithms x intake path) + every single-bit flip of tbsCertList / signatureAlgorithm / signatureValue of a small ECDSA CRL on the first-load path (bit indices past the end of the document are counted as skipped); further runs: the same sweep for an RSA CRL (thorough), flips on the refresh path and on larger documents; oracle: a non-authentic document is never observed in force and a strict handshake for its distribution point is denied unless an earlier authentic version is in force; non-trivial = the delivered document was not authentic"}
+		return Plan{Runs: n, Enumerated: e, Exhaustive: true, Level: "fault_enumeration", Rule: "enumerated: (signer in {issuer, configured trusted signer, sibling CA with the same name, stranger, the client certificate's own key, CA without cRLSign, the issuer's genuine signature of ANOTHER list the validator verified earlier in the same process} x AKI form in {keyId, absent, issuer+serial, both, foreign keyId} x intake path in {first CDP load, crl_urls at provision, periodic refresh}) + (13 signature algorithms x intake path) + every single-bit flip of tbsCertList / signatureAlgorithm / signatureValue of a small ECDSA CRL on the first-load path (bit indices past the end of the document are counted as skipped); further runs: the same sweep for an RSA CRL (thorough), flips on the refresh path and on larger documents; oracle: a non-authentic document is never observed in force and a strict handshake for its distribution point is denied unless an earlier authentic version is in force; non-trivial = the delivered document was not authentic"}
 	}, Run: runC04})
 }
 
@@ -106,6 +106,7 @@ func runC04(h *Harness) {
 	}
 	orig := loc.Versions[target]
 	doc := *orig
+	var earlier *Location // a location whose authentic list is loaded before the document under test (signature replay)
 	authentic := true
 	desc := ""
 	switch {
@@ -185,6 +186,27 @@ func runC04(h *Harness) {
 		case "ee-key":
 			ee := &CA{Name: "ee", Cert: eeCert, Key: eeKey}
 			doc.Signer, authentic = ee, false
+		case "replayed-signature":
+			// the genuine signature value of another list of the same issuer, which the validator has verified earlier
+			// in this process: the previous version of this location (refresh) or the list of a sibling location
+			doc.Signer, authentic = issuer, false
+			src := loc.Versions[0]
+			if path != "refresh" {
+				earlier = w.NewLocation(LocOpts{Name: "L0", URL: "http://crl0.sim/earlier.crl", Issuer: issuer, NVers: 1, Extra: 1, Width: 9, Base: 9})
+				src = earlier.Versions[0]
+			}
+			s := *src
+			s.AutoAlg, s.AKI = true, aki
+			if aki == akiForeignKey {
+				s.AKI = akiDefault // the earlier list must itself be acceptable
+			}
+			s.Build()
+			if path == "refresh" {
+				loc.Versions[0] = &s
+			} else {
+				earlier.Versions[0] = &s
+			}
+			doc.SigOverride = s.Sig
 		}
 		doc.AutoAlg = true
 		doc.Build()
@@ -206,6 +228,10 @@ func runC04(h *Harness) {
 		TrustedSigFiles: []string{h.WriteFile("trust/t.pem", CertPEM(trustedT.Cert))}}
 	if path == "provision-url" {
 		cfg.CRLUrls = []string{loc.URL}
+		if earlier != nil {
+			cfg.CRLUrls = []string{earlier.URL, loc.URL}
+			cfg.TrustedSigFiles = append(cfg.TrustedSigFiles, h.WriteFile("trust/i0.pem", CertPEM(issuer.Cert)))
+		}
 		if signer == "issuer" || alg >= 0 {
 			// a configured CRL can only be verified through configured signers: trust the issuer itself as well
 			cfg.TrustedSigFiles = append(cfg.TrustedSigFiles, h.WriteFile("trust/i.pem", CertPEM(issuer.Cert)))
@@ -253,6 +279,13 @@ func runC04(h *Harness) {
 		if err != nil {
 			h.Violation("C04.setup", "provision-failed", "%v", err)
 			return
+		}
+		if earlier != nil {
+			c0 := issuer.Issue(EEOpts{Serial: earlier.Never[0], CDP: []string{earlier.URL}})
+			if x := h.Handshake(n, "earlier", [][]*x509.Certificate{append([]*x509.Certificate{c0}, chain[0][1:]...)}); x.Err != nil {
+				h.Violation("C04.setup", "authentic-first-load-failed", "the authentic list of the sibling location was not accepted: %v", x.Err)
+				return
+			}
 		}
 		hs := h.Handshake(n, "first", chain)
 		h.Quiesce()
